@@ -119,6 +119,8 @@ impl Vm {
 
         // Execute each operation
         while let Some(res) = op_access.op_access(self.pc) {
+            #[cfg(essential_base_verif)]
+            crate::verif::on_vm(crate::verif::VmEvent::BeforeOp, self, gas_spent);
             let op = res.map_err(|err| ExecError(self.pc, err.into()))?;
 
             // Calculate the gas cost of the operation.
@@ -151,6 +153,9 @@ impl Vm {
                 op_gas_cost,
                 gas_limit,
             );
+
+            #[cfg(essential_base_verif)]
+            crate::verif::on_vm(crate::verif::VmEvent::AfterOp, self, gas_spent);
 
             #[cfg(feature = "tracing")]
             crate::trace_op_res(
